@@ -1,5 +1,6 @@
 import BpModel.Proofs.Names
 import BpModel.Model.Cli
+import BpModel.Model.Lint
 /-!
 # C20 — lint is advisory and diagnostics point at the right line
 
@@ -15,10 +16,6 @@ other lines are 1-based (KF-col-first-line).
 -/
 namespace Bp.C20
 open Bp Names
-
-def warnsPascal (name : List Char) : Bool := decide (pascalCase name ≠ name)
-def warnsUpper (name : List Char) : Bool := !pyIsUpper name
-def warnsEnumNoZero (values : List Nat) : Bool := !values.contains 0
 
 /-- style-conforming names produce no warning -/
 theorem C20_clean_pascal (n : List Char) (h : IsPascal n) : warnsPascal n = false := by
